@@ -23,6 +23,8 @@ def run(rep):
     rep.guard(f9, rep, w)
     rep.guard(f10, rep, w)
     rep.guard(f11, rep, w)
+    rep.guard(f12, rep, w)
+    rep.guard(f13, rep, w)
     rep.guard(c01.r1, rep, w)     # a suspended fiber keeps its own state: everything it holds (stack, frames, the caller link, a return parked behind a finally) is traced, unconditionally, while it waits
     import c17
     rep.guard(c17.l4, rep, w)     # the site of an exception in flight is recorded in the fiber it is in flight in (ObjFiber.error_ip): kept VM-wide, a second fiber's error
@@ -34,6 +36,8 @@ def run(rep):
     rep.guard(c06.s9, rep, w)   # a fiber's captured variables point into its value stack: the storage never moves (no growth by reallocation)
     import c08
     rep.guard(c08.x3, rep, w)   # a finishing fiber drops its own handlers, not those of the fiber it returns to
+    rep.guard(c08.x20, rep, w, 'C09')   # what a fiber hands to its caller is not kept in the slot a return is parked in: the next finally block of that fiber would resume it as a return
+    rep.guard(c01.r2, rep, w)     # a suspended fiber stays reachable from the fiber that resumed it / from the VM: every handle the VM keeps is a root
 
 
 def value_key(paths):
@@ -591,3 +595,107 @@ def f11(rep, w):
                             'and the links form a cycle)' % (f.path, bad), f.loc(s_.get('sp')))
     if n == 0:
         raise Broken('C09', 'anchor', 'no construction of a fiber value found')
+
+
+def fiber_fields_written(w, f, fields, depth=0, seen=None):
+    """fields of ObjFiber that f changes: assigned, handed to clear / truncate / take / replace, or changed by an ObjFiber method f calls"""
+    c = w.yarel
+    seen = seen if seen is not None else set()
+    if f.path in seen or depth > 3:
+        return set()
+    seen.add(f.path)
+    wr = set()
+    for bi in f.normal_blocks():
+        for s_ in f.blocks[bi]['s']:
+            d = s_.get('d') or {}
+            names = [e.get('n') for e in d.get('p', []) if isinstance(e, dict) and 'n' in e]
+            if names and names[0] in fields and 'ObjFiber' in c.tstr(f.local_ty(d['l'])):
+                wr.add(names[0])
+    org = None
+    for bi, t in f.calls():
+        nm = callee_name(t) or ''
+        tail = strip_generics(nm).rsplit('::', 1)[-1]
+        if tail in ('clear', 'truncate', 'take', 'replace', 'drain') and t['args'] and (not nm.startswith('yarel::') or nm.startswith('yarel::stack::')):
+            org = org or origins(f)
+            pl = op_place(t['args'][0])
+            if pl is not None:
+                for e in pl.get('p', []):
+                    if isinstance(e, dict) and e.get('n') in fields:
+                        wr.add(e['n'])
+                for q in org.get(pl['l'], ()):
+                    wr |= {tok for tok in q[1:] if tok in fields}
+        g = w.fns.get(nm)
+        if g is not None and g.path.startswith('yarel::object::ObjFiber::') and g.path != 'yarel::object::ObjFiber::new':
+            wr |= fiber_fields_written(w, g, fields, depth + 1, seen)
+    return wr
+
+
+def f12(rep, w, prop='C09'):
+    """a fiber starts with nothing of an earlier run in it. ObjFiber::new builds every field; code that instead *re-initialises* an existing fiber
+    for another run (a pooled root fiber, a restart method) has to put back every per-run field - a handler list, an open-upvalue list or a
+    parked return left over from the earlier run is acted on by the next one (an error of the new script "caught" inside the old script's
+    code). A function counts as a re-initialiser when it resets three quarters or more of the per-run fields (unwinding to a handler touches about half of them); the fields it leaves are the violation."""
+    r = rep.rule('F12', 'code that re-initialises a fiber for another run resets every per-run field of it', floor=0)
+    c = w.yarel
+    adt = c.adts.get('yarel::object::ObjFiber')
+    if adt is None:
+        raise Broken(prop, 'anchor', 'ObjFiber not found')
+    fields = [fd['n'] for fd in adt['variants'][0]['fields']]
+    per_run = [n for n in fields if n != 'class']
+    if len(per_run) < 8:
+        raise Broken(prop, 'floor', 'ObjFiber has only %d per-run fields' % len(per_run))
+    n = 0
+    for f in sorted(c.fns.values(), key=lambda x: x.path):
+        if f.path == 'yarel::object::ObjFiber::new' or f.kind == 'Closure':
+            continue
+        wr = fiber_fields_written(w, f, set(per_run)) & set(per_run)
+        if 4 * len(wr) >= 3 * len(per_run):
+            n += 1
+            rest = sorted(set(per_run) - wr)
+            r.check(not rest, '%s / resets every per-run field' % f.path.replace('yarel::', ''),
+                    '%s re-initialises a fiber (%d of its %d per-run fields) but leaves %s as the earlier run left them: the next run acts on that left-over state'
+                    % (f.path, len(wr), len(per_run), rest), f.loc())
+    r.ok('census of fiber re-initialisers: %d' % n)
+
+
+def f13(rep, w):
+    """"a wrong argument count ... [is] reported as [an error] that leave[s] every fiber's state untouched": in the built-ins of the Fiber class
+    (the natives that take their receiver with try_as_obj_fiber) and in load_fiber / unload_fiber, nothing of a fiber is changed on a path that
+    still can end in an error: a mutable borrow of a fiber cell, or a call of an ObjFiber method taking `&mut self`, is never followed by an
+    error exit. (Marking the fiber "started" before the argument count is checked makes a refused first call consume the fiber's start.)"""
+    import c08
+    r = rep.rule('F13', 'the fiber built-ins change no fiber on a path that can still end in an error', floor=3)
+    c = w.yarel
+    fns = [f for f in c.fns.values() if f.file.endswith('core.rs') and f.kind != 'Closure' and
+           any((callee_name(t) or '').endswith('try_as_obj_fiber') for _, t in f.calls())]
+    fns += [c.fns[n] for n in ('yarel::vm::Vm::load_fiber', 'yarel::vm::Vm::unload_fiber') if n in c.fns]
+    if len(fns) < 3:
+        raise Broken('C09', 'anchor', 'fiber built-ins not found (%d)' % len(fns))
+    for f in sorted(fns, key=lambda x: x.path):
+        errs = c08.err_exits(f)
+        # a callee that can fail counts as an error exit at its `?` (from_residual) - covered by err_exits
+        muts = []
+        for bi, t in f.calls():
+            nm = callee_name(t) or ''
+            sn = strip_generics(nm)
+            if sn == 'std::cell::RefCell::borrow_mut' and 'ObjFiber' in ' '.join(c.tstr(a) for a in (t['f'].get('ra') or t['f'].get('a') or [])):
+                muts.append((bi, 'borrow_mut'))
+            g = w.fns.get(nm)
+            if g is not None and g.path.startswith('yarel::object::ObjFiber::') and g.argc >= 1 and '&mut' in c.tstr(g.local_ty(1)):
+                muts.append((bi, g.name))
+            if f.path.startswith('yarel::vm::Vm::') and nm in ('yarel::vm::Vm::active_fiber_mut', 'yarel::vm::Vm::pop', 'yarel::vm::Vm::push', 'yarel::vm::Vm::poke'):
+                muts.append((bi, nm.rsplit('::', 1)[-1]))
+        for bi in f.normal_blocks():
+            for s_ in f.blocks[bi]['s']:
+                d = s_.get('d') or {}
+                names = [e.get('n') for e in d.get('p', []) if isinstance(e, dict) and 'n' in e]
+                if names and f.path.startswith('yarel::vm::Vm::') and names[0] in ('fiber', 'unsafe_fiber'):
+                    muts.append((bi, 'Vm.' + names[0]))
+        if f.path == 'yarel::vm::Vm::unload_fiber':
+            # Fiber.yield at module level: the argument slot is popped and the running frame's saved ip refreshed before the refusal; both are
+            # rewritten by whatever runs next (the handler search truncates the stack, every switch saves the ip again) - not fiber state a
+            # program can observe. What must not precede the refusal is the switch itself.
+            muts = [(bi, what) for bi, what in muts if what not in ('pop', 'active_fiber_mut', 'current_frame_mut')]
+        bad = sorted({what for bi, what in muts if any(e in f.reachable_blocks(bi) and e != bi for e in errs)})
+        r.check(not bad, '%s / no change before the last error exit' % f.path.replace('yarel::', ''),
+                '%s changes fiber state (%s) and can still end in an error afterwards: the refused operation has already altered the fiber' % (f.path, ', '.join(bad)), f.loc())
